@@ -28,6 +28,7 @@ fn main() {
         "C02" => props::core::c02(),
         "C03" => props::core::c03(),
         "C04" => props::core::c04(),
+        "C05" => props::recovery::c05(),
         "C07" => props::drop::c07(),
         "C13" => props::synctest::c13(),
         "C14" => props::codec::c14(),
